@@ -69,7 +69,8 @@ func jsonItem(r *RNG) ItemSpec {
 	case 1, 2:
 		return Str(jsonKeyText(r))
 	case 3:
-		return Str("")
+		// empty, and non-empty texts of zero display width (an empty cell is one whose TEXT is empty)
+		return Str(pick(r, []string{"", "", "\u200b", "\n", "\u0301", "\u200d"}))
 	case 4:
 		return ItemSpec{K: "int", I: int64(r.Intn(2001) - 1000)}
 	case 5:
@@ -214,6 +215,18 @@ func jsonRandTable(r *RNG, badUTF8 bool) TableSpec {
 				}
 			}
 		}
+	}
+	// a second AddHeaders (same number of headers: a reused wrapper must not keep the old keys),
+	// settings made before the rows, zero-width but non-empty texts in skipable columns
+	if ts.Header != nil && len(*ts.Header) > 0 && r.Pct(10) {
+		h2 := jsonHeader(r, len(*ts.Header), badUTF8)
+		ts.Header2 = &h2
+		if len(ts.Rows) > 0 {
+			ts.Stages = []int{len(ts.Rows) - 1}
+		}
+	}
+	if r.Pct(8) {
+		ts.SkipEarly = map[int]int{0: 1 + r.Intn(2)}
 	}
 	return ts
 }
